@@ -6,6 +6,7 @@
 import Scico.Proofs.StepsOpial
 import Scico.Proofs.StepsOpial2
 import Scico.Proofs.StepsOpial3
+import Scico.Proofs.StepsOpial4
 import Scico.Proofs.StepsExamples
 
 set_option linter.unusedSectionVars false
@@ -67,5 +68,47 @@ theorem exPADMM2_kkt [FiniteDimensional ℝ X] (y0 : X) : IsPKKT (exPADMM2 y0) (
     simpa [exPADMM2, exPADMM] using this
   · have := zeroFn_subgrad (E := X) y0
     simpa [exPADMM2, exPADMM] using this
+
+/-! ### ADMM, two identity constraints `ρ = (1, 2)`, relaxation `α = 3/2`, exact x-update: hypotheses of `admm_converges_findim` -/
+
+theorem exADMM_xplus (y0 x0 : X) (σ : Fin ([idCon 1, idCon 2] : List (Con X X)).length → X) :
+    xplus [idCon 1, idCon 2] (exSolveX y0 [idCon 1, idCon 2]) x0 σ = (1 / 4 : ℝ) • (y0 + σ 0 + (2 : ℝ) • σ 1) := by
+  unfold xplus exSolveX sumRho sumRhoZU Pz
+  simp [idCon, List.ofFn_succ]
+  norm_num
+  module
+
+theorem exADMM_conv [FiniteDimensional ℝ X] (y0 x0 : X) :
+    ADMMConvHyp [idCon 1, idCon 2] (3 / 2) (exSolveX y0 [idCon 1, idCon 2]) (halfSq y0) x0 1 2 := by
+  have hid : ∀ c ∈ ([idCon 1, idCon 2] : List (Con X X)), c.C = id ∧ c.Cadj = id := by
+    intro c hc; simp at hc; rcases hc with rfl | rfl <;> exact ⟨rfl, rfl⟩
+  have hpos : ∀ c ∈ ([idCon 1, idCon 2] : List (Con X X)), 0 < c.rho := by
+    intro c hc; simp at hc; rcases hc with rfl | rfl <;> norm_num [idCon]
+  refine ⟨by norm_num, by norm_num, ?_, ?_, ?_, by norm_num, ?_, ?_, ?_, exSolveX_stationary y0 _ hid hpos,
+    exSolveX_unique y0 _ hid hpos, ?_⟩
+  · intro c hc x y; rw [(hid c hc).1]; rfl
+  · intro c hc w x; rw [(hid c hc).1, (hid c hc).2]; rfl
+  · intro c hc; simp at hc; rcases hc with rfl | rfl <;> exact isProx_zero
+  · intro c hc; simp at hc; rcases hc with rfl | rfl <;> norm_num [idCon]
+  · intro c hc; simp at hc; rcases hc with rfl | rfl <;> norm_num [idCon]
+  · intro c hc; rw [(hid c hc).1]; exact continuous_id
+  · have : xplus [idCon 1, idCon 2] (exSolveX y0 [idCon 1, idCon 2]) x0
+        = fun σ => (1 / 4 : ℝ) • (y0 + σ 0 + (2 : ℝ) • σ 1) := funext (exADMM_xplus y0 x0)
+    rw [this]
+    fun_prop
+
+theorem exADMM_kkt [FiniteDimensional ℝ X] (y0 : X) :
+    IsAKKT ([idCon 1, idCon 2] : List (Con X X)) (halfSq y0) y0 (fun _ => 0) := by
+  have hid : ∀ c ∈ ([idCon 1, idCon 2] : List (Con X X)), c.C = id ∧ c.Cadj = id := by
+    intro c hc; simp at hc; rcases hc with rfl | rfl <;> exact ⟨rfl, rfl⟩
+  constructor
+  · intro i
+    have hm : ([idCon 1, idCon 2] : List (Con X X)).get i ∈ ([idCon 1, idCon 2] : List (Con X X)) := List.get_mem _ i
+    simp only [List.mem_cons, List.not_mem_nil, or_false] at hm
+    rcases hm with h | h
+    · rw [h]; simpa [idCon] using zeroFn_subgrad (E := X) y0
+    · rw [h]; simpa [idCon] using zeroFn_subgrad (E := X) y0
+  · have := ex_kktx y0 ([idCon 1, idCon 2] : List (Con X X)) hid
+    simpa [List.ofFn_succ] using this
 
 end Scico.Steps
